@@ -45,7 +45,53 @@ def apply_edit(text: str, edit: List[Any]) -> str:
             "\n\nclass Verif_bad:\n    x: Verif_unknown_type\n\n"
             "    def __init__(self, x: Verif_unknown_type) -> None:\n        self.x = x\n"
         )
+    if kind == "enum_values":
+        return _exotic_enum_values(text, int(arg or 0))
     raise ValueError(f"unknown edit {edit!r}")
+
+
+EXOTIC_VALUES = ["\U0001f600", "caf\u00e9", "\u6f22\u5b57", "with space", " lead", "trail ", "a\"b", "it's",
+                 "back\\slash", "<tag>", "a&b", "tab\there", "\U0001d11e clef", "x\u0085y", "\u2028",
+                 "{curly}", "%s", "\u00ff", "\U000e0041", "]]>", "semi;colon", "UPPER", "1", ""]
+
+
+def _exotic_enum_values(text: str, salt: int) -> str:
+    """Replace the values of the literals of every Enum class by exotic (unique) strings."""
+    import random as _random
+
+    rng = _random.Random(salt)
+    out = []
+    in_enum = False
+    indent = None
+    k = 0
+    for line in text.split("\n"):
+        m = re.match(r"^class \w+\((?:[\w.]+\.)?Enum\):", line)
+        if m:
+            in_enum, indent = True, None
+            out.append(line)
+            continue
+        if in_enum:
+            lm = re.match(r'^(\s+)([A-Za-z_][A-Za-z_0-9]*) = "((?:[^"\\\\]|\\\\.)*)"\s*$', line)
+            if lm:
+                k += 1
+                base = EXOTIC_VALUES[rng.randrange(len(EXOTIC_VALUES))]
+                value = f"{base}#{k}" if rng.random() < 0.8 else f"{k}{base}"
+                out.append(f"{lm.group(1)}{lm.group(2)} = {_py_literal(value)}")
+                continue
+            if line.strip() and not line.startswith((" ", "\t")):
+                in_enum = False
+        out.append(line)
+    return "\n".join(out)
+
+
+def _py_literal(value: str) -> str:
+    body = "".join(
+        ch if (32 <= ord(ch) < 127 and ch not in '"\\') else
+        ("\\" + ch if ch in '"\\' else
+         (f"\\x{ord(ch):02x}" if ord(ch) < 256 else
+          (f"\\u{ord(ch):04x}" if ord(ch) < 0x10000 else f"\\U{ord(ch):08x}")))
+        for ch in value)
+    return '"' + body + '"'
 
 
 def materialise(spec: dict) -> str:
